@@ -238,9 +238,13 @@ pub fn exec_special(ctx: &mut Ctx, ex: &mut Extra, hist: &mut Vec<String>, toks:
             let sc = ex.sctx.as_mut().expect("sctx first");
             let before = crate::scen::full_snapshot(&ctx.board);
             let pool = rayon::ThreadPoolBuilder::new().num_threads(threads).build().unwrap();
-            ctx.fresh.clear_caches_for_verif();
+            // `search <n> long`: with the long-lived generator (as a Game keeps one across its searches)
+            let long = toks.len() > 2 && toks[2] == "long";
+            if !long {
+                ctx.fresh.clear_caches_for_verif();
+            }
             let board = &mut ctx.board;
-            let mg = &mut ctx.fresh;
+            let mg = if long { &mut ctx.long } else { &mut ctx.fresh };
             let res = catch_unwind(AssertUnwindSafe(|| pool.install(|| alpha_beta_search(sc, board, mg))));
             let after = crate::scen::full_snapshot(&ctx.board);
             let mut s = match res {
